@@ -256,7 +256,16 @@ def make_controller(rng, with_h, with_proj, bad=None, hmode="l1"):
     params = ParameterList(n, npt, 100)
     params("func_tol.max_iters", new_value=int(rng.integers(5, 80)))
     rhobeg = float(10.0 ** rng.uniform(-3, 1))
-    control = Controller(lambda x: x, (), x0, r0, 1, xl, xu, projs, npt, rhobeg, 1e-8, 1, 1, 100, params, None, False,
+    scaling = None
+    if with_h and not with_proj and rng.random() < 0.4:
+        # scaling_within_bounds: internal coordinates in [0, 1], h sees the user's coordinates
+        lo = np.round(rng.normal(size=n), 2)
+        width = 10.0 ** rng.uniform(-1, 1.3, size=n)
+        scaling = (lo.copy(), width.copy(), lo.copy(), lo + width)
+        xl, xu = np.zeros(n), np.ones(n)
+        x0 = rng.uniform(0.05, 0.95, size=n)
+        rhobeg = float(10.0 ** rng.uniform(-3, -1))
+    control = Controller(lambda x: x, (), x0, r0, 1, xl, xu, projs, npt, rhobeg, 1e-8, 1, 1, 100, params, scaling, False,
                          h=h, lh=lh, argsh=(), prox_uh=prox, argsprox=())
     md = control.model
     J = rng.normal(size=(m, n)) * 10.0 ** rng.uniform(-2, 2)
@@ -268,14 +277,35 @@ def make_controller(rng, with_h, with_proj, bad=None, hmode="l1"):
     md.model_jac = J
     md.model_const = rc
     control.delta = rhobeg * float(10.0 ** rng.uniform(-1, 1))
-    return control, params, {"n": n, "m": m, "lam": lam, "delta": control.delta}
+    return control, params, {"n": n, "m": m, "lam": lam, "delta": control.delta, "scaled": scaling is not None}
 
 
-def pred_reduction_of(control, gopt, H, d):
+def pred_reduction_pkg(control, gopt, H, d):
+    """the number the code itself compares with 0 (input of the decision correspondence)"""
     from dfols.util import model_value, remove_scaling
     x = control.model.xopt(abs_coordinates=True)
     return control.h(remove_scaling(x, control.scaling_changes), *control.argsh) - model_value(gopt, H, d, x, control.h, control.argsh,
                                                                                                control.scaling_changes)
+
+
+def pred_reduction_of(control, gopt, H, d):
+    """h(x) - [d.(g + H d / 2) + h(x + d)], h evaluated in the USER's coordinates — computed here, not with the
+    package's model_value (the quantity whose sign the property is about must not be taken from the code under test)"""
+    x = control.model.xopt(abs_coordinates=True)
+    sc = control.scaling_changes
+
+    def user(z):
+        if sc is None:
+            return z
+        raw = sc[0] + z * sc[1]
+        return np.minimum(np.maximum(raw, sc[2]), sc[3]) if len(sc) > 2 else raw
+    quad = float(np.dot(d, gopt + 0.5 * H.dot(d)))
+    h0 = control.h(user(x), *control.argsh)
+    h1 = control.h(user(x + d), *control.argsh)
+    pr = h0 - (quad + h1)
+    if pr == pr and abs(pr) <= 1e-10 * (abs(h0) + abs(h1) + abs(quad)) :
+        return 0.0      # within rounding of the comparison the code makes with its own summation order
+    return pr
 
 
 # ----------------------------------------------------------------------------------------------
@@ -337,7 +367,7 @@ def corr_decision(ctx):
             if len(called) > 1:
                 ctx.broke("correspondence:trust_region_step-decision", {"case": i, "why": "more than one solver called", "called": called})
             if with_h and called and not norm_raised:
-                pr = pred_reduction_of(control, gopt, H, crafted)
+                pr = pred_reduction_pkg(control, gopt, H, crafted)
             else:
                 pr = float("nan")
             zeroed = (d is not None) and bool(called) and bool(np.all(d == 0.0)) and not bool(np.all(crafted == 0.0))
@@ -529,6 +559,7 @@ def search_tr_step(ctx):
         hmode = "nan" if rng.random() < 0.06 else "l1"      # a regulariser returning NaN: can a NaN prediction keep a non-zero step?
         control, params, info = make_controller(rng, True, with_proj, bad=bad[int(rng.integers(10))], hmode=hmode)
         ctx.seen(("c13trstep", i, with_proj, info["n"], info["m"], hmode))
+        st["scaled"] = st.get("scaled", 0) + int(info.get("scaled", False))
         try:
             d, gopt, H, gnew, crvmin = core.with_alarm(30, lambda: control.trust_region_step(params))
         except core.Alarm:
